@@ -22,7 +22,7 @@ func init() {
 		Batches:   func(tier string) int { return 16 },
 		Run:       runC12,
 		Technique: "event-log checker: an injected accounting sink (rendering exactly as log.Logger.Printf, in half of the runs through a real log.Logger) and the connection's write events share one logical clock; for every SUCCESS reply the checker looks for exactly one earlier sink record carrying the request's unique task id and compares the decoded record with the request byte for byte",
-		Rule: "requests: every flag octet; user/port/rem_addr and arguments over all of 0x00-0x7f with emphasis on %, %s, %!, quotes, backslashes, <>&, control characters; 0..255 arguments; start/stop/watchdog orders on up to 16 concurrent connections sharing the sink; unknown users, users without accounter, undecodable bodies, stop+watchdog. " +
+		Rule: "requests: every flag octet; user/port/rem_addr and arguments over all of 0x00-0x7f with emphasis on %, %s, %!, quotes, backslashes, <>&, control characters; 0..255 arguments; start/stop/watchdog orders on up to 16 concurrent connections sharing the sink; unknown users, users without accounter, undecodable bodies, contradictory flags (stop+watchdog, start+stop). " +
 			"A class is (flag class, reply status, character classes present, argument-count bucket); distinct_nontrivial counts classes",
 		Assumptions: []string{"the record format is what the reference accounter emits (JSON of the decoded request, Go field names); the syslog accounter needs a syslog daemon socket and is not exercised"},
 		MinClasses:  func(tier string) int { return 40 },
@@ -123,7 +123,7 @@ func runC12(b *mon.B) {
 			for k := 0; k < perConn; k++ {
 				caseNo++
 				q := c12Req{ID: fmt.Sprintf("%d-%d-%d", b.Index, round*100+ci, k), Seq: 1}
-				q.Flags = r.Pick(2, 4, 8, 0x0a, r.Intn(256))
+				q.Flags = r.Pick(2, 4, 8, 0x0a, r.Intn(256), r.Pick(6, 0x0c, 0x0e, 3, 0x12))
 				if q.Flags == 0x0a || r.Chance(1, 8) {
 					q.Seq = r.Pick(1, 3, 5)
 				}
@@ -248,7 +248,8 @@ func runC12(b *mon.B) {
 					return m
 				}
 				known := sc.Users[q.User]
-				mustError := q.Garbage || (q.Flags&4 != 0 && q.Flags&8 != 0) || known == nil || known.Accounter != "file"
+				contradictory := (q.Flags&4 != 0 && q.Flags&8 != 0) || (q.Flags&2 != 0 && q.Flags&4 != 0)
+				mustError := q.Garbage || contradictory || known == nil || known.Accounter != "file"
 				if mustError && o.status != 2 {
 					why := "unknown user"
 					switch {
@@ -256,6 +257,8 @@ func runC12(b *mon.B) {
 						why = "undecodable body"
 					case q.Flags&4 != 0 && q.Flags&8 != 0:
 						why = "stop+watchdog flags"
+					case q.Flags&2 != 0 && q.Flags&4 != 0:
+						why = "start+stop flags"
 					case known != nil:
 						why = "user without accounter"
 					}
